@@ -189,6 +189,9 @@ def c15(r):
     r.tlc_exhaustive("KVExec.tla", "KVExec.cfg", workers=16)
     if r.tier == "thorough":
         r.tlc_exhaustive("KVExec.tla", "KVExec_big.cfg", workers=16)
+    ok2, _ = r.tlc_exhaustive("KVExec.tla", "KVExec_reinit.cfg", workers=8, expect_ok=False)
+    if ok2:
+        raise Inconclusive("KVExec_reinit.cfg should reproduce a non-idempotent chain initialization")
     ok, _ = r.tlc_exhaustive("KVExec.tla", "KVExec_final.cfg", workers=8, expect_ok=False)
     if ok:
         raise Inconclusive("KVExec_final.cfg should reproduce the finalize-in-root counterexample")
